@@ -82,6 +82,7 @@ int main(void)
 			mpt_dispatch_init(DISP);
 			have = 1;
 			rc_on = 0;
+			stale_id = 0;
 			nreg = 1; /* registration 0 is the fallback */
 			if (drv_w[2][0] == 'f') { D->_err.cmd = handler; D->_err.arg = &regs[0]; }
 			else if (drv_w[2][0] == 'n') { D->_err.cmd = 0; D->_err.arg = 0; }
@@ -90,7 +91,12 @@ int main(void)
 			continue;
 		}
 		if (!have) { puts("bad-op"); continue; }
-		if (!strcmp(op, "ctx") && drv_nw == 2) {
+		if (!strcmp(op, "stale") && drv_nw == 3) {
+			if (parse_id(drv_w[2], &id)) { puts("bad-op"); continue; }
+			stale_id = id;
+			result("ok", "0", 0);
+		}
+		else if (!strcmp(op, "ctx") && drv_nw == 2) {
 			/* give the dispatcher a fallback reply context of its own (kept until mpt_dispatch_fini) */
 			if (!D->_ctx) {
 				struct drv_ctx *c = malloc(sizeof(*c));
@@ -167,6 +173,7 @@ int main(void)
 			if (isnull) { free(dat); puts("bad-op"); continue; }
 			msg.base = dat; msg.used = dlen;
 			ev.msg = &msg;
+			if (dlen) ev.id = stale_id;
 			cur_nest = drv_w[2][0] == 'c';
 			int ret = mpt_dispatch_emit(DISP, &ev);
 			result_ret(ret, ev.id);
